@@ -627,16 +627,17 @@ fn compare_bigint(a: &BigInt, b: &BigInt) -> Ordering {
     match (a.sign, b.sign) {
         (Sign::Positive, Sign::Negative) => Ordering::Greater,
         (Sign::Negative, Sign::Positive) => Ordering::Less,
+        // digits are little-endian: the most significant digit decides
         (Sign::Positive, Sign::Positive) => a
             .digits
             .len()
             .cmp(&b.digits.len())
-            .then_with(|| a.digits.cmp(&b.digits)),
+            .then_with(|| a.digits.iter().rev().cmp(b.digits.iter().rev())),
         (Sign::Negative, Sign::Negative) => a
             .digits
             .len()
             .cmp(&b.digits.len())
-            .then_with(|| a.digits.cmp(&b.digits))
+            .then_with(|| a.digits.iter().rev().cmp(b.digits.iter().rev()))
             .reverse(),
     }
 }
